@@ -1,8 +1,1367 @@
-//! C19 — not implemented yet.
+//! C19 — a decision table drawn as Unicode box-drawing text is recognised exactly as drawn.
+//!
+//! Implementation: `dmntk_recognizer::{scan, Recognizer::recognize, build}` and
+//! `dmntk_model_evaluator::build_decision_table_evaluator`.
+//! Model: `Dmn.Recog` (lean/Dmn/Model/Plane.lean) through the driver:
+//!   `(c19 layout …)` pads the texts of a generated table into the cells of a layout,
+//!   `(c19 table …)`  returns `draw t`, `planeOf t` and `recognizePlane (planeOf t)`,
+//!   `(c19 plane …)`  returns `recognizePlane` of an arbitrary plane.
+//!
+//! Families:
+//!   (a) plane      the plane the real scanner yields for `draw t` = `planeOf t` (tie of the
+//!                  unmodelled scanner; ImplVsModel), before and after `recognize`;
+//!   (b) build      `build(draw t)` = `t` field by field (ImplVsSpec: recognised exactly as
+//!                  drawn) and = `recognizePlane (planeOf t)` (ImplVsModel);
+//!   (c) evaluate   the recognised table evaluates like the same table loaded from DMN XML;
+//!   (d) total      single-character corruptions, line-level corruptions and arbitrary text are
+//!                  recognised or rejected with an error, never a panic (ImplVsSpec, signature =
+//!                  panic site); when the scanner still yields a plane, the implementation's
+//!                  outcome is compared with `recognizePlane` of that plane (ImplVsModel).
 
-use crate::report::Report;
+use crate::model::Model;
+use crate::report::{Kind, Report};
+use crate::rng::Rng;
+use crate::sexp::Sexp;
+use crate::util::guarded;
 use crate::Cfg;
+use dmntk_feel::context::FeelContext;
+use dmntk_feel::values::Value;
+use dmntk_feel::Scope;
+use dmntk_model::model::{BuiltinAggregator, DecisionTable, DecisionTableOrientation, HitPolicy};
+use dmntk_model_evaluator::ModelEvaluator;
+use serde_json::json;
+use std::sync::Mutex;
 
-pub fn run(_cfg: &Cfg) -> Report {
-  Report::new("C19", "not implemented")
+// ------------------------------------------------------------------------------------------------
+// panic sites
+
+static LAST_PANIC: Mutex<String> = Mutex::new(String::new());
+
+fn install_panic_recorder() {
+  std::panic::set_hook(Box::new(|info| {
+    let loc = info.location().map(|l| format!("{}:{}", l.file().trim_start_matches("/repo/"), l.line())).unwrap_or_else(|| "?".into());
+    if let Ok(mut g) = LAST_PANIC.lock() {
+      *g = loc;
+    }
+  }));
+}
+
+fn last_panic() -> String {
+  LAST_PANIC.lock().map(|g| g.clone()).unwrap_or_default()
+}
+
+/// Panic message without varying data.
+fn stable_msg(m: &str) -> String {
+  let mut out = String::new();
+  let mut in_num = false;
+  for c in m.chars() {
+    if c.is_ascii_digit() {
+      if !in_num {
+        out.push('#');
+      }
+      in_num = true;
+    } else {
+      in_num = false;
+      out.push(c);
+    }
+  }
+  out.chars().take(90).collect()
+}
+
+// ------------------------------------------------------------------------------------------------
+// the logical table
+
+#[derive(Clone, Copy, PartialEq, Debug)]
+enum Ty {
+  Num,
+  Str,
+}
+
+#[derive(Clone, Debug)]
+struct Tbl {
+  orient: &'static str,
+  hp: &'static str,
+  name: Option<String>,
+  inputs: Vec<(String, Option<String>)>,
+  outputs: Vec<(Option<String>, Option<String>)>,
+  label: Option<String>,
+  anns: Vec<String>,
+  rules: Vec<(Vec<String>, Vec<String>, Vec<String>)>,
+  split: bool,
+  /// cell texts are FEEL: the table can be evaluated
+  semantic: bool,
+  in_names: Vec<String>,
+  in_types: Vec<Ty>,
+  blank_values: u8,
+  merge: bool,
+}
+
+const MARKERS: [&str; 11] = ["U", "A", "P", "F", "R", "O", "C", "C+", "C<", "C>", "C#"];
+
+fn opt_sexp(o: &Option<String>) -> Sexp {
+  match o {
+    None => Sexp::list(vec![Sexp::atom("none")]),
+    Some(s) => Sexp::list(vec![Sexp::atom("some"), Sexp::str(s)]),
+  }
+}
+
+fn spec_sexp(
+  orient: &str,
+  hp: &str,
+  name: &Option<String>,
+  inputs: &[(String, Option<String>)],
+  outputs: &[(Option<String>, Option<String>)],
+  label: &Option<String>,
+  anns: &[String],
+  rules: &[(Vec<String>, Vec<String>, Vec<String>)],
+) -> Sexp {
+  let strs = |v: &Vec<String>| Sexp::list(v.iter().map(|s| Sexp::str(s)).collect());
+  Sexp::list(vec![
+    Sexp::atom("spec"),
+    Sexp::atom(orient),
+    Sexp::atom(hp),
+    opt_sexp(name),
+    Sexp::list(inputs.iter().map(|(e, v)| Sexp::list(vec![Sexp::atom("in"), Sexp::str(e), opt_sexp(v)])).collect()),
+    Sexp::list(outputs.iter().map(|(n, v)| Sexp::list(vec![Sexp::atom("out"), opt_sexp(n), opt_sexp(v)])).collect()),
+    opt_sexp(label),
+    Sexp::list(anns.iter().map(|s| Sexp::str(s)).collect()),
+    Sexp::list(rules.iter().map(|(a, b, c)| Sexp::list(vec![Sexp::atom("rule"), strs(a), strs(b), strs(c)])).collect()),
+  ])
+}
+
+impl Tbl {
+  fn spec(&self) -> Sexp {
+    spec_sexp(self.orient, self.hp, &self.name, &self.inputs, &self.outputs, &self.label, &self.anns, &self.rules)
+  }
+  fn decor(&self, hp_text: &str) -> Sexp {
+    Sexp::list(vec![
+      Sexp::atom("decor"),
+      Sexp::str(hp_text),
+      Sexp::list((1..=self.rules.len()).map(|i| Sexp::str(&i.to_string())).collect()),
+      Sexp::bool(self.split),
+      Sexp::str(""),
+      Sexp::list(self.anns.iter().map(|_| Sexp::str("")).collect()),
+      Sexp::bool(self.merge),
+    ])
+  }
+  fn has_values(&self) -> bool {
+    self.inputs[0].1.is_some()
+  }
+  fn header_lanes(&self) -> usize {
+    1 + (self.outputs.len() > 1 && self.label.is_some()) as usize + self.has_values() as usize
+  }
+  /// number of columns / rows of the drawing grid
+  fn grid(&self) -> (usize, usize) {
+    let a = 1 + self.inputs.len() + self.outputs.len() + self.anns.len();
+    let b = self.header_lanes() + self.rules.len();
+    if self.orient == "rows" {
+      (a, b)
+    } else {
+      (b, a)
+    }
+  }
+  fn shape_key(&self) -> String {
+    format!(
+      "{} n{} m{} k{} r{} {} name{} values{} label{} split{}",
+      self.orient,
+      self.inputs.len(),
+      self.outputs.len(),
+      self.anns.len(),
+      self.rules.len(),
+      self.hp,
+      self.name.is_some() as u8,
+      self.has_values() as u8,
+      self.label.is_some() as u8,
+      self.split as u8
+    )
+  }
+}
+
+// ------------------------------------------------------------------------------------------------
+// generators
+
+const WORDS: [&str; 14] = ["Customer", "Order", "size", "age", "risk", "Rate", "déjà", "Größe", "日本", "x", "N°", "total", "flag", "level"];
+const PUNCT: [&str; 12] = ["!", "?", "%", "&", "<", ">", "'", "\"", "/", "\\", "…", "#"];
+
+fn free_line(rng: &mut Rng) -> String {
+  let n = rng.below(4);
+  let mut parts: Vec<String> = vec![];
+  for _ in 0..n {
+    if rng.chance(1, 5) {
+      parts.push(rng.pick(&PUNCT).to_string());
+    } else {
+      parts.push(rng.pick(&WORDS).to_string());
+    }
+  }
+  parts.join(" ")
+}
+
+/// Free text: 1..3 non-empty lines (or one possibly empty line); no box-drawing characters.
+fn free_text(rng: &mut Rng, multi: bool) -> String {
+  let lines = if multi && rng.chance(1, 3) { 2 + rng.below(2) as usize } else { 1 };
+  if lines == 1 {
+    return free_line(rng);
+  }
+  let mut v = vec![];
+  for _ in 0..lines {
+    let mut l = free_line(rng);
+    if l.is_empty() {
+      l = "w".into();
+    }
+    v.push(l);
+  }
+  v.join("\n")
+}
+
+/// Breaks a comma separated FEEL text after a comma.
+fn wrap_at_comma(rng: &mut Rng, s: String, multi: bool) -> String {
+  if !multi || !rng.chance(1, 2) {
+    return s;
+  }
+  let cs: Vec<usize> = s.match_indices(',').map(|(i, _)| i).collect();
+  if cs.is_empty() {
+    return s;
+  }
+  let i = *rng.pick(&cs);
+  let rest = s[i + 1..].trim_start();
+  if rest.is_empty() {
+    return s;
+  }
+  format!("{}\n{}", &s[..=i], rest)
+}
+
+const STRS: [&str; 4] = ["a", "b", "c", "d"];
+
+fn num_entry(rng: &mut Rng) -> String {
+  match rng.below(8) {
+    0 | 1 => "-".into(),
+    2 => format!("<{}", rng.below(10)),
+    3 => format!(">={}", rng.below(10)),
+    4 => {
+      let a = rng.below(8);
+      format!("[{}..{}]", a, a + 1 + rng.below(4))
+    }
+    5 => format!("{}", rng.below(10)),
+    6 => format!("not({})", rng.below(10)),
+    _ => format!("{},{}", rng.below(5), 5 + rng.below(5)),
+  }
+}
+
+fn str_entry(rng: &mut Rng) -> String {
+  match rng.below(5) {
+    0 | 1 => "-".into(),
+    2 => format!("\"{}\"", rng.pick(&STRS)),
+    3 => format!("\"{}\",\"{}\"", rng.pick(&STRS), rng.pick(&STRS)),
+    _ => format!("not(\"{}\")", rng.pick(&STRS)),
+  }
+}
+
+struct Shape {
+  orient: &'static str,
+  n: usize,
+  m: usize,
+  k: usize,
+  r: usize,
+  hp: &'static str,
+  name: bool,
+  values: bool,
+  label: bool,
+  split: bool,
+  /// allow texts that collide with the recogniser's placement heuristics
+  quirks: bool,
+  /// 1: leave the allowed output values blank, 2: leave the allowed input values blank
+  blank_values: u8,
+  /// draw equal input entries of consecutive rules as one merged cell
+  merge: bool,
+}
+
+fn gen_table(rng: &mut Rng, sh: &Shape, semantic: bool, multi: bool) -> Tbl {
+  let mut in_names = vec![];
+  let mut in_types = vec![];
+  let mut inputs = vec![];
+  for j in 0..sh.n {
+    let ty = if rng.chance(2, 3) { Ty::Num } else { Ty::Str };
+    // names: plain, multi-word (may wrap over lines), or a hit policy letter
+    let nm = match rng.below(14) {
+      0 => format!("Applicant age {}", j + 1),
+      1 => format!("Order size{}", j + 1),
+      2 if j > 0 => ["A", "P", "C"][j % 3].to_string() + &format!("{}", j),
+      // an input called like a hit policy marker (F19a when it is the first one of a rules-as-columns table)
+      3 if sh.quirks => ["A", "P", "C", "U", "F", "R", "O"][(j + sh.r) % 7].to_string(),
+      _ => format!("in{}", j + 1),
+    };
+    let expr = if semantic {
+      if multi && nm.contains(' ') && rng.chance(1, 2) {
+        nm.replacen(' ', "\n", 1)
+      } else {
+        nm.clone()
+      }
+    } else {
+      free_text(rng, multi)
+    };
+    let vals = if sh.values {
+      Some(if sh.blank_values == 2 {
+        String::new()
+      } else if semantic {
+        match ty {
+          Ty::Num => wrap_at_comma(rng, "<5,[5..10],>10".to_string(), multi),
+          Ty::Str => wrap_at_comma(rng, "\"a\",\"b\",\"c\",\"d\"".to_string(), multi),
+        }
+      } else {
+        free_text(rng, multi)
+      })
+    } else {
+      None
+    };
+    in_names.push(nm);
+    in_types.push(ty);
+    inputs.push((expr, vals));
+  }
+  let numeric_out = matches!(sh.hp, "C+" | "C<" | "C>") || rng.chance(1, 2);
+  let mut outputs = vec![];
+  for j in 0..sh.m {
+    let name = if sh.m > 1 {
+      Some(if semantic { format!("out{}", j + 1) } else { free_text(rng, multi) })
+    } else {
+      None
+    };
+    let vals = if sh.values {
+      Some(if sh.blank_values == 1 {
+        String::new()
+      } else if semantic {
+        if numeric_out {
+          wrap_at_comma(rng, "1,2,3,4,5,6,7,8,9".to_string(), multi)
+        } else {
+          wrap_at_comma(rng, "\"x\",\"y\",\"z\"".to_string(), multi)
+        }
+      } else {
+        free_text(rng, multi)
+      })
+    } else {
+      None
+    };
+    outputs.push((name, vals));
+  }
+  let label = if sh.m == 1 || sh.label {
+    // a label that reads as a number (F19b in a rules-as-columns table)
+    Some(if sh.quirks && rng.chance(1, 4) { format!("{}", 1 + rng.below(3)) } else { free_text(rng, multi) })
+  } else {
+    None
+  };
+  let anns: Vec<String> = (0..sh.k).map(|_| free_text(rng, multi)).collect();
+  let mut rules: Vec<(Vec<String>, Vec<String>, Vec<String>)> = vec![];
+  for _ in 0..sh.r {
+    let ins: Vec<String> = (0..sh.n)
+      .map(|j| {
+        if sh.merge && !rules.is_empty() && rng.chance(1, 2) {
+          // the same entry as in the rule before: drawn as one merged cell
+          rules.last().unwrap().0[j].clone()
+        } else if semantic {
+          let e = match in_types[j] {
+            Ty::Num => num_entry(rng),
+            Ty::Str => str_entry(rng),
+          };
+          wrap_at_comma(rng, e, multi)
+        } else {
+          free_text(rng, multi)
+        }
+      })
+      .collect();
+    let outs: Vec<String> = (0..sh.m)
+      .map(|_| {
+        if semantic {
+          if numeric_out {
+            format!("{}", 1 + rng.below(9))
+          } else {
+            format!("\"{}\"", rng.pick(&["x", "y", "z"]))
+          }
+        } else {
+          free_text(rng, multi)
+        }
+      })
+      .collect();
+    let an: Vec<String> = (0..sh.k).map(|_| free_text(rng, multi)).collect();
+    rules.push((ins, outs, an));
+  }
+  Tbl {
+    orient: sh.orient,
+    hp: sh.hp,
+    name: if sh.name { Some(free_text(rng, multi)) } else { None },
+    inputs,
+    outputs,
+    label,
+    anns,
+    rules,
+    split: sh.split,
+    semantic,
+    in_names,
+    in_types,
+    blank_values: if sh.values { sh.blank_values } else { 0 },
+    merge: sh.merge,
+  }
+}
+
+fn random_shape(rng: &mut Rng) -> Shape {
+  let m = 1 + rng.below(3) as usize;
+  Shape {
+    orient: if rng.chance(1, 2) { "rows" } else { "cols" },
+    n: 1 + rng.below(5) as usize,
+    m,
+    k: rng.below(3) as usize,
+    r: 1 + rng.below(8) as usize,
+    hp: *rng.pick(&MARKERS),
+    name: rng.chance(1, 2),
+    values: rng.chance(1, 2),
+    label: rng.chance(1, 2),
+    split: rng.chance(1, 2),
+    quirks: rng.chance(1, 6),
+    blank_values: 0,
+    merge: rng.chance(1, 3),
+  }
+}
+
+// ------------------------------------------------------------------------------------------------
+// implementation side
+
+fn hp_atom(h: &HitPolicy) -> &'static str {
+  match h {
+    HitPolicy::Unique => "U",
+    HitPolicy::Any => "A",
+    HitPolicy::Priority => "P",
+    HitPolicy::First => "F",
+    HitPolicy::RuleOrder => "R",
+    HitPolicy::OutputOrder => "O",
+    HitPolicy::Collect(BuiltinAggregator::List) => "C",
+    HitPolicy::Collect(BuiltinAggregator::Sum) => "C+",
+    HitPolicy::Collect(BuiltinAggregator::Count) => "C#",
+    HitPolicy::Collect(BuiltinAggregator::Min) => "C<",
+    HitPolicy::Collect(BuiltinAggregator::Max) => "C>",
+  }
+}
+
+fn table_sexp(dt: &DecisionTable) -> Sexp {
+  let orient = match dt.preferred_orientation {
+    DecisionTableOrientation::RuleAsRow => "rows",
+    DecisionTableOrientation::RuleAsColumn => "cols",
+    DecisionTableOrientation::CrossTable => "cross",
+  };
+  let inputs: Vec<(String, Option<String>)> = dt.input_clauses.iter().map(|c| (c.input_expression.clone(), c.input_values.clone())).collect();
+  let outputs: Vec<(Option<String>, Option<String>)> = dt.output_clauses.iter().map(|c| (c.name.clone(), c.output_values.clone())).collect();
+  let anns: Vec<String> = dt.annotations.iter().map(|a| a.name.clone()).collect();
+  let rules: Vec<(Vec<String>, Vec<String>, Vec<String>)> = dt
+    .rules
+    .iter()
+    .map(|r| {
+      (
+        r.input_entries.iter().map(|e| e.text.clone()).collect(),
+        r.output_entries.iter().map(|e| e.text.clone()).collect(),
+        r.annotation_entries.iter().map(|e| e.text.clone()).collect(),
+      )
+    })
+    .collect();
+  spec_sexp(orient, hp_atom(&dt.hit_policy), &dt.information_item_name, &inputs, &outputs, &dt.output_label, &anns, &rules)
+}
+
+/// `Err(..)` of the recogniser → the model's error name.
+fn err_name(msg: &str) -> String {
+  let m = msg;
+  let has = |s: &str| m.contains(s);
+  if has("invalid size:") {
+    let k = if has("minimum one input clause") {
+      1
+    } else if has("number of input expressions") {
+      2
+    } else if has("number of input values") {
+      3
+    } else if has("minimum one output clause") {
+      4
+    } else if has("number of output components (") {
+      5
+    } else if has("output components must be zero") {
+      6
+    } else if has("number of output values") {
+      7
+    } else if has("minimum one rule") {
+      8
+    } else if has("number of input entries") && has("number of rules") {
+      9
+    } else if has("number of input entries") {
+      10
+    } else if has("number of output entries") && has("number of rules") {
+      11
+    } else if has("number of output entries") {
+      12
+    } else if has("number of annotation entries") && has("number of rules") {
+      13
+    } else if has("number of annotation entries") {
+      14
+    } else {
+      0
+    };
+    return format!("invalidSize:{}", k);
+  }
+  if has("plane invalid rule number:") {
+    let n = m.rsplit(':').next().unwrap_or("").trim();
+    return format!("invalidRuleNumber:{}", n);
+  }
+  let table = [
+    ("plane is empty", "planeIsEmpty"),
+    ("plane row is out of range", "rowOutOfRange"),
+    ("plane column is out of range", "colOutOfRange"),
+    ("plane no main double crossing", "noMainDoubleCrossing"),
+    ("plane invalid output clause", "invalidOutputClause"),
+    ("not a region cell in plane", "cellIsNotRegion"),
+    ("invalid input expressions", "invalidInputExpressions"),
+    ("too many rows in output clause", "tooManyRows"),
+    ("no output clause", "noOutputClause"),
+    ("expected left-below rule numbers placement", "expectedLeftBelow"),
+    ("expected right-after rule numbers placement", "expectedRightAfter"),
+    ("expected top-left hit policy placement", "expectedTopLeft"),
+    ("expected bottom-left hit policy placement", "expectedBottomLeft"),
+    ("expected no rule numbers present", "expectedNoRuleNumbers"),
+    ("cross-tab decision tables is not yet implemented", "crossTabNotSupported"),
+  ];
+  for (k, v) in table {
+    if has(k) {
+      return v.to_string();
+    }
+  }
+  format!("scanner:{}", stable_msg(m))
+}
+
+/// The file a model panic site lives in.
+fn site_file(site: &str) -> &'static str {
+  match site {
+    "rectSub" => "recognizer/src/rect.rs",
+    "builderIndex" => "recognizer/src/builder.rs",
+    _ => "recognizer/src/plane.rs",
+  }
+}
+
+struct PlaneObs {
+  display: String,
+  texts: Sexp,
+  cells: Sexp,
+}
+
+/// Observes a plane through its public methods (`Display`, `height`, `row_len`,
+/// `region_text`, `region_number`, and the `Debug` name of a non-region cell).
+macro_rules! observe_plane {
+  ($plane:expr) => {{
+    let plane = $plane;
+    let display = format!("{}", plane);
+    let mut rows = vec![Sexp::atom("texts")];
+    let mut cells = vec![];
+    for r in 0..plane.height() {
+      let mut row = vec![];
+      let mut crow = vec![];
+      for c in 0..plane.row_len(r) {
+        match (plane.region_number(r, c), plane.region_text(r, c)) {
+          (Ok(n), Ok(t)) => {
+            row.push(Sexp::str(&t));
+            crow.push(Sexp::list(vec![Sexp::atom("r"), Sexp::int(n), Sexp::str(&t)]));
+          }
+          _ => {
+            row.push(Sexp::atom("-"));
+            let dbg = plane.cell(r, c).map(|x| format!("{:?}", x)).unwrap_or_default();
+            crow.push(Sexp::atom(match dbg.as_str() {
+              "VerticalOutputDoubleLine" => "vo",
+              "VerticalAnnotationDoubleLine" => "va",
+              "HorizontalOutputDoubleLine" => "ho",
+              "HorizontalAnnotationsDoubleLine" => "ha",
+              "MainDoubleCrossing" => "mx",
+              "HorizontalDoubleCrossing" => "hx",
+              "VerticalDoubleCrossing" => "vx",
+              _ => "??",
+            }));
+          }
+        }
+      }
+      rows.push(Sexp::list(row));
+      cells.push(Sexp::list(crow));
+    }
+    PlaneObs { display, texts: Sexp::list(rows), cells: Sexp::list(cells) }
+  }};
+}
+
+struct ImplObs {
+  /// the scanner's plane and information item name, or the scanner's error
+  scanned: Result<(PlaneObs, Option<String>), String>,
+  /// the plane left in `Recognizer::plane`
+  post: Option<PlaneObs>,
+  /// `build`: the table / the error message
+  built: Result<DecisionTable, String>,
+  /// a panic of `scan`, `recognize` or `build`: (site, message)
+  panic: Option<(String, String)>,
+}
+
+const PANIC_MARK: &str = "\u{1}panic ";
+
+fn run_impl(text: &str) -> ImplObs {
+  let mut panic = None;
+  let scanned = match guarded(|| match dmntk_recognizer::scan(text) {
+    Err(e) => Err(e.to_string()),
+    Ok(mut canvas) => {
+      let name = canvas.information_item_name.clone();
+      match canvas.plane() {
+        Err(e) => Err(e.to_string()),
+        Ok(p) => Ok((observe_plane!(&p), name)),
+      }
+    }
+  }) {
+    Ok(r) => r,
+    Err(m) => {
+      panic = Some((last_panic(), m.clone()));
+      Err(format!("{}{}", PANIC_MARK, last_panic()))
+    }
+  };
+  let post = match guarded(|| match dmntk_recognizer::Recognizer::recognize(text) {
+    Ok(rec) => Some(observe_plane!(&rec.plane)),
+    Err(_) => None,
+  }) {
+    Ok(r) => r,
+    Err(m) => {
+      panic = Some((last_panic(), m));
+      None
+    }
+  };
+  let built = match guarded(|| dmntk_recognizer::build(text).map_err(|e| e.to_string())) {
+    Ok(r) => r,
+    Err(m) => {
+      panic = Some((last_panic(), m));
+      Err(format!("{}{}", PANIC_MARK, last_panic()))
+    }
+  };
+  ImplObs { scanned, post, built, panic }
+}
+
+/// The file of a panic site `file:line`.
+fn file_of(site: &str) -> &str {
+  site.rsplit_once(':').map(|x| x.0).unwrap_or(site)
+}
+
+fn impl_outcome(o: &ImplObs) -> String {
+  match &o.built {
+    Ok(dt) => Sexp::list(vec![Sexp::atom("ok"), table_sexp(dt)]).to_string(),
+    Err(m) if m.starts_with(PANIC_MARK) => format!("(panic {})", file_of(&m[PANIC_MARK.len()..])),
+    Err(m) => format!("(error {})", err_name(m)),
+  }
+}
+
+/// The model's outcome with a panic site replaced by the file it lives in.
+fn normalise_model_outcome(m: &str) -> String {
+  if let Some(rest) = m.strip_prefix("(panic ") {
+    let site = rest.trim_end_matches(')');
+    return format!("(panic {})", site_file(site));
+  }
+  m.to_string()
+}
+
+// ------------------------------------------------------------------------------------------------
+// evaluation: recognised table vs the same table loaded from DMN XML
+
+fn xml_escape(s: &str) -> String {
+  s.replace('&', "&amp;").replace('<', "&lt;").replace('>', "&gt;").replace('"', "&quot;")
+}
+
+fn table_xml(t: &Tbl) -> String {
+  let (hp, agg) = match t.hp {
+    "U" => ("UNIQUE", None),
+    "A" => ("ANY", None),
+    "P" => ("PRIORITY", None),
+    "F" => ("FIRST", None),
+    "R" => ("RULE ORDER", None),
+    "O" => ("OUTPUT ORDER", None),
+    "C" => ("COLLECT", None),
+    "C+" => ("COLLECT", Some("SUM")),
+    "C#" => ("COLLECT", Some("COUNT")),
+    "C<" => ("COLLECT", Some("MIN")),
+    _ => ("COLLECT", Some("MAX")),
+  };
+  let one_line = |s: &str| xml_escape(&s.replace('\n', " "));
+  let mut x = String::new();
+  x.push_str("<?xml version=\"1.0\" encoding=\"UTF-8\"?>\n<definitions namespace=\"https://verif/c19\" name=\"c19\" id=\"_defs\" xmlns=\"https://www.omg.org/spec/DMN/20191111/MODEL/\">\n");
+  for (j, n) in t.in_names.iter().enumerate() {
+    let ty = if t.in_types[j] == Ty::Num { "number" } else { "string" };
+    x.push_str(&format!("<inputData name=\"{}\" id=\"_i{}\"><variable name=\"{}\" typeRef=\"{}\"/></inputData>\n", xml_escape(n), j, xml_escape(n), ty));
+  }
+  x.push_str("<decision name=\"D\" id=\"_d\"><variable name=\"D\"/>\n");
+  for j in 0..t.in_names.len() {
+    x.push_str(&format!("<informationRequirement id=\"_r{}\"><requiredInput href=\"#_i{}\"/></informationRequirement>\n", j, j));
+  }
+  x.push_str(&format!("<decisionTable hitPolicy=\"{}\"{}>\n", hp, agg.map(|a| format!(" aggregation=\"{}\"", a)).unwrap_or_default()));
+  for (e, v) in &t.inputs {
+    x.push_str(&format!("<input><inputExpression><text>{}</text></inputExpression>", one_line(e)));
+    if let Some(v) = v.as_ref().filter(|v| !v.trim().is_empty()) {
+      x.push_str(&format!("<inputValues><text>{}</text></inputValues>", one_line(v)));
+    }
+    x.push_str("</input>\n");
+  }
+  for (n, v) in &t.outputs {
+    match n {
+      Some(n) => x.push_str(&format!("<output name=\"{}\">", one_line(n))),
+      None => x.push_str("<output>"),
+    }
+    if let Some(v) = v.as_ref().filter(|v| !v.trim().is_empty()) {
+      x.push_str(&format!("<outputValues><text>{}</text></outputValues>", one_line(v)));
+    }
+    x.push_str("</output>\n");
+  }
+  for (ins, outs, _) in &t.rules {
+    x.push_str("<rule>");
+    for e in ins {
+      x.push_str(&format!("<inputEntry><text>{}</text></inputEntry>", one_line(e)));
+    }
+    for e in outs {
+      x.push_str(&format!("<outputEntry><text>{}</text></outputEntry>", one_line(e)));
+    }
+    x.push_str("</rule>\n");
+  }
+  x.push_str("</decisionTable></decision></definitions>\n");
+  x
+}
+
+fn canon(v: &Value) -> String {
+  match v {
+    Value::Null(_) => "null".into(),
+    Value::List(vs) => format!("[{}]", vs.as_vec().iter().map(canon).collect::<Vec<_>>().join(", ")),
+    Value::Context(c) => format!("{{{}}}", c.get_entries().iter().map(|(k, v)| format!("{}: {}", k, canon(v))).collect::<Vec<_>>().join(", ")),
+    other => format!("{}", other),
+  }
+}
+
+fn input_context(rng: &mut Rng, t: &Tbl) -> String {
+  let mut es = vec![];
+  for (n, ty) in t.in_names.iter().zip(t.in_types.iter()) {
+    let v = match ty {
+      Ty::Num => format!("{}", rng.below(13)),
+      Ty::Str => format!("\"{}\"", rng.pick(&["a", "b", "c", "d", "e"])),
+    };
+    es.push(format!("{}: {}", n, v));
+  }
+  format!("{{{}}}", es.join(", "))
+}
+
+// ------------------------------------------------------------------------------------------------
+// corruptions
+
+const BOX: [char; 31] = [
+  '┌', '┐', '└', '┘', '├', '┤', '┬', '┴', '┼', '─', '│', '═', '║', '╞', '╡', '╥', '╨', '╪', '╫', '╬', '╟', '╢', '╤', '╧', ' ', 'x', '1', 'U', '░', '╔', '\t',
+];
+
+fn corrupt(rng: &mut Rng, text: &str) -> (String, String) {
+  let mut lines: Vec<Vec<char>> = text.lines().map(|l| l.chars().collect()).collect();
+  if lines.is_empty() {
+    return ("empty".into(), String::new());
+  }
+  let kind = rng.below(18);
+  let li = rng.below(lines.len() as u64) as usize;
+  let what;
+  match kind {
+    14..=17 => {
+      // replace a junction character by another junction character
+      const JUNCTIONS: [char; 24] = ['┌', '┐', '└', '┘', '├', '┤', '┬', '┴', '┼', '╞', '╡', '╥', '╨', '╪', '╫', '╬', '╟', '╢', '╤', '╧', '│', '─', '║', '═'];
+      let mut pos = vec![];
+      for (y, l) in lines.iter().enumerate() {
+        for (x, c) in l.iter().enumerate() {
+          if JUNCTIONS[..20].contains(c) {
+            pos.push((y, x));
+          }
+        }
+      }
+      if !pos.is_empty() {
+        let (y, x) = *rng.pick(&pos);
+        lines[y][x] = *rng.pick(&JUNCTIONS);
+      }
+      what = "junction";
+    }
+    10 => {
+      // delete one column of the drawing
+      let w = lines.iter().map(|l| l.len()).max().unwrap_or(0);
+      let x = rng.below(w.max(1) as u64) as usize;
+      for l in lines.iter_mut() {
+        if x < l.len() {
+          l.remove(x);
+        }
+      }
+      what = "delete-column";
+    }
+    11 => {
+      let w = lines.iter().map(|l| l.len()).max().unwrap_or(0);
+      let x = rng.below(w.max(1) as u64) as usize;
+      for l in lines.iter_mut() {
+        if x < l.len() {
+          let c = l[x];
+          l.insert(x, c);
+        }
+      }
+      what = "duplicate-column";
+    }
+    12 => {
+      let lj = rng.below(lines.len() as u64) as usize;
+      lines.swap(li, lj);
+      what = "swap-lines";
+    }
+    13 => {
+      // turn a whole single line into a double line or back
+      for c in lines[li].iter_mut() {
+        *c = match *c {
+          '─' => '═',
+          '├' => '╞',
+          '┤' => '╡',
+          '┼' => '╪',
+          '╫' => '╬',
+          '═' => '─',
+          '╞' => '├',
+          '╡' => '┤',
+          '╪' => '┼',
+          '╬' => '╫',
+          other => other,
+        };
+      }
+      what = "toggle-double-line";
+    }
+    0..=4 => {
+      // single character substitution, preferring line characters
+      let cand: Vec<usize> = (0..lines[li].len()).filter(|&i| lines[li][i] != ' ' || rng.chance(1, 8)).collect();
+      if let Some(&ci) = cand.get(rng.below(cand.len().max(1) as u64) as usize) {
+        lines[li][ci] = *rng.pick(&BOX);
+      }
+      what = "substitute";
+    }
+    5 => {
+      if !lines[li].is_empty() {
+        let ci = rng.below(lines[li].len() as u64) as usize;
+        lines[li].remove(ci);
+      }
+      what = "delete-char";
+    }
+    6 => {
+      let ci = rng.below(lines[li].len() as u64 + 1) as usize;
+      lines[li].insert(ci, *rng.pick(&BOX));
+      what = "insert-char";
+    }
+    7 => {
+      lines.remove(li);
+      what = "delete-line";
+    }
+    8 => {
+      let l = lines[li].clone();
+      lines.insert(li, l);
+      what = "duplicate-line";
+    }
+    _ => {
+      let keep = rng.below(lines[li].len() as u64 + 1) as usize;
+      lines[li].truncate(keep);
+      what = "truncate-line";
+    }
+  }
+  (what.to_string(), lines.iter().map(|l| l.iter().collect::<String>()).collect::<Vec<_>>().join("\n"))
+}
+
+fn arbitrary_text(rng: &mut Rng) -> String {
+  let nl = rng.below(7);
+  let mut s = String::new();
+  for _ in 0..nl {
+    let w = rng.below(12);
+    for _ in 0..w {
+      s.push(*rng.pick(&BOX));
+    }
+    s.push('\n');
+  }
+  s
+}
+
+// ------------------------------------------------------------------------------------------------
+
+fn split_top(ans: &str) -> Option<Vec<Sexp>> {
+  Sexp::parse(ans)?.as_list().map(|l| l.to_vec())
+}
+
+fn lines_of(s: &Sexp) -> Vec<String> {
+  s.as_list()
+    .map(|l| {
+      l[1..]
+        .iter()
+        .map(|x| x.as_list().map(|cs| cs[1..].iter().filter_map(|c| c.as_atom().and_then(|a| a.parse::<u32>().ok()).and_then(char::from_u32)).collect::<String>()).unwrap_or_default())
+        .collect()
+    })
+    .unwrap_or_default()
+}
+
+fn str_of(s: &Sexp) -> String {
+  s.as_list().map(|cs| cs[1..].iter().filter_map(|c| c.as_atom().and_then(|a| a.parse::<u32>().ok()).and_then(char::from_u32)).collect::<String>()).unwrap_or_default()
+}
+
+struct Case {
+  tbl: Tbl,
+  slack: Sexp,
+  hp_text: String,
+}
+
+pub fn run(cfg: &Cfg) -> Report {
+  let mut rep = Report::new(
+    "C19",
+    "generated tables (1..5 inputs, 1..3 outputs, 0..2 annotations, 1..8 rules, 11 hit policy markers, both orientations, information item name / allowed values / output label / split header lane on and off, random cell widths, heights and text positions, multi-line cells), drawn by the Lean `draw`, recognised by the real recogniser; plus corruptions of the drawings and arbitrary text. Non-trivial: a drawing of a table (any shape) or a corrupted drawing that differs from its original; distinct by the text given to the recogniser.",
+  );
+  install_panic_recorder();
+  let thorough = cfg.tier == "thorough";
+  let mut rng = Rng::new(cfg.seed);
+  let mut model = Model::start(&cfg.driver);
+
+  // ---- the tables ------------------------------------------------------------------------------
+  let mut cases: Vec<Case> = vec![];
+  let mk_case = |rng: &mut Rng, sh: &Shape, semantic: bool, multi: bool| -> Case {
+    let tbl = gen_table(rng, sh, semantic, multi);
+    let (gc, gr) = tbl.grid();
+    let slack = Sexp::list(vec![
+      Sexp::atom("slack"),
+      Sexp::list((0..gc).map(|_| Sexp::int(if rng.chance(1, 2) { 0 } else { rng.below(5) })).collect()),
+      Sexp::list((0..gr).map(|_| Sexp::int(if rng.chance(3, 4) { 0 } else { rng.below(3) })).collect()),
+      Sexp::int(rng.below(6)),
+      Sexp::int(rng.below(1_000_000)),
+    ]);
+    Case { tbl, slack, hp_text: sh.hp.to_string() }
+  };
+  // systematic part: every marker × orientation × optional parts, small sizes
+  for orient in ["rows", "cols"] {
+    for (mi, hp) in MARKERS.iter().enumerate() {
+      for bits in 0..16u32 {
+        for m in [1usize, 2, 3] {
+          let sh = Shape {
+            orient,
+            n: 1 + ((mi + bits as usize) % 3),
+            m,
+            k: (bits as usize + m) % 3,
+            r: 1 + ((mi * 3 + bits as usize) % 4),
+            hp,
+            name: bits & 1 != 0,
+            values: bits & 2 != 0,
+            label: bits & 4 != 0,
+            split: bits & 8 != 0,
+            quirks: false,
+            blank_values: 0,
+            merge: (bits as usize + mi) % 5 == 0,
+          };
+          if !thorough && (mi + bits as usize + m) % 3 != 0 && *hp != "U" {
+            continue;
+          }
+          cases.push(mk_case(&mut rng, &sh, true, bits & 1 == 0));
+        }
+      }
+    }
+  }
+  // allowed values lane with blank output (or input) values
+  for (i, hp) in MARKERS.iter().enumerate() {
+    for bv in [1u8, 2] {
+      let sh = Shape { orient: if i % 2 == 0 { "rows" } else { "cols" }, n: 1 + i % 3, m: 1 + i % 2, k: i % 2, r: 2 + i % 3, hp, name: false, values: true, label: i % 3 == 0, split: i % 2 == 1, quirks: false, blank_values: bv, merge: false };
+      cases.push(mk_case(&mut rng, &sh, true, false));
+    }
+  }
+  let n_random = if thorough { 12_000 } else { 3_000 };
+  for i in 0..n_random {
+    let sh = random_shape(&mut rng);
+    let multi = rng.chance(1, 2);
+    cases.push(mk_case(&mut rng, &sh, i % 3 != 0, multi));
+  }
+
+  // ---- layout, drawing ---------------------------------------------------------------------------
+  let reqs1: Vec<String> = cases.iter().map(|c| format!("(c19 layout {} {} {})", c.tbl.spec(), c.tbl.decor(&c.hp_text), c.slack)).collect();
+  let ans1 = model.ask_batch(&reqs1);
+  let mut reqs2 = vec![];
+  let mut laid: Vec<Option<Vec<Sexp>>> = vec![];
+  for a in &ans1 {
+    match split_top(a) {
+      Some(parts) if parts.len() == 3 => {
+        reqs2.push(format!("(c19 table {} {} {})", parts[0], parts[1], parts[2]));
+        laid.push(Some(parts));
+      }
+      _ => {
+        reqs2.push("(c19 bad)".to_string());
+        laid.push(None);
+      }
+    }
+  }
+  let ans2 = model.ask_batch(&reqs2);
+  // degenerate geometry: some columns / rows of width / height zero (texts no longer fit)
+  let mut degenerate_reqs = vec![];
+  for (ci, l) in laid.iter().enumerate() {
+    if ci % 7 != 0 {
+      continue;
+    }
+    if let Some(parts) = l {
+      if let Some(lay) = parts[2].as_list() {
+        let zero = |xs: &Sexp, rng: &mut Rng| Sexp::list(xs.as_list().unwrap_or(&[]).iter().map(|x| if rng.chance(1, 3) { Sexp::int(0) } else { x.clone() }).collect());
+        let lay2 = Sexp::list(vec![lay[0].clone(), zero(&lay[1], &mut rng), zero(&lay[2], &mut rng), lay[3].clone()]);
+        degenerate_reqs.push(format!("(c19 table {} {} {})", parts[0], parts[1], lay2));
+      }
+    }
+  }
+  let degenerate_texts: Vec<String> = model
+    .ask_batch(&degenerate_reqs)
+    .iter()
+    .filter_map(|a| split_top(a))
+    .map(|a| lines_of(&a[0]).join("\n"))
+    .collect();
+
+  let mut drawings: Vec<(usize, String)> = vec![];
+  let mut plane_reqs: Vec<(String, String, String)> = vec![]; // (request, text, implementation outcome)
+
+  for (ci, case) in cases.iter().enumerate() {
+    let t = &case.tbl;
+    let req = &reqs2[ci];
+    let (parts, ans) = match (&laid[ci], split_top(&ans2[ci])) {
+      (Some(p), Some(a)) if a.len() == 6 => (p, a),
+      _ => {
+        rep.disagree(Kind::ImplVsModel, "driver", "driver-error", &reqs1[ci], "", &format!("{} / {}", ans1[ci], ans2[ci]));
+        continue;
+      }
+    };
+    let expected_spec = parts[0].to_string();
+    let lines = lines_of(&ans[0]);
+    // sanity of the layout: every logical line survives padding
+    let indent = " ".repeat(rng.below(4) as usize);
+    let mut text = String::new();
+    if rng.chance(1, 2) {
+      text.push('\n');
+    }
+    for l in &lines {
+      text.push_str(&indent);
+      text.push_str(l);
+      text.push('\n');
+    }
+    rep.case(&text, true);
+    rep.hit(&format!("orientation:{}", t.orient));
+    rep.hit(&format!("marker:{}", t.hp));
+    rep.hit(&format!("inputs:{}", t.inputs.len()));
+    rep.hit(&format!("outputs:{}", t.outputs.len()));
+    rep.hit(&format!("annotations:{}", t.anns.len()));
+    rep.hit(&format!("rules:{}", t.rules.len()));
+    rep.hit(&format!("header-lanes:{}", t.header_lanes()));
+    if t.merge && (1..t.rules.len()).any(|i| (0..t.inputs.len()).any(|j| t.rules[i].0[j] == t.rules[i - 1].0[j])) {
+      rep.hit("merged-input-entry-cells");
+    }
+    rep.hit(&format!("parts:name{}-values{}-label{}-split{}", t.name.is_some() as u8, t.has_values() as u8, t.label.is_some() as u8, t.split as u8));
+    let wf = ans[5].to_string() == "(wf true)";
+    if !wf {
+      rep.disagree(Kind::ImplVsModel, "driver", "generated table is not well-formed", req, "", &ans[5].to_string());
+    }
+    let model_plane = str_of(&ans[1].as_list().unwrap()[1]);
+    let model_texts = ans[2].to_string();
+    let model_recognized = ans[4].as_list().map(|l| l[1].to_string()).unwrap_or_default();
+    let expected_outcome = format!("(ok {})", expected_spec);
+
+    let obs = run_impl(&text);
+    if let Some((site, msg)) = &obs.panic {
+      rep.disagree(Kind::ImplVsSpec, "total", &format!("panic {} {}", site, stable_msg(msg)), &text, &format!("panic: {}", msg), "Ok or Err");
+      continue;
+    }
+    // (a) the scanner's plane
+    match &obs.scanned {
+      Ok((p, name)) => {
+        if p.display != model_plane {
+          rep.disagree(Kind::ImplVsModel, "plane", &format!("scanned plane differs from planeOf ({})", t.orient), &text, &p.display, &model_plane);
+        } else if p.texts.to_string() != model_texts {
+          rep.disagree(Kind::ImplVsModel, "plane", &format!("region texts of the scanned plane differ from planeOf ({})", t.orient), &text, &p.texts.to_string(), &model_texts);
+        }
+        let exp_name = parts[0].as_list().map(|l| l[3].to_string()).unwrap_or_default();
+        if opt_sexp(name).to_string() != exp_name {
+          rep.disagree(Kind::ImplVsSpec, "build", "information item name differs from the drawn one", &text, &opt_sexp(name).to_string(), &exp_name);
+        }
+      }
+      Err(e) => {
+        rep.hit("scanner-rejects-drawing");
+        rep.disagree(Kind::ImplVsSpec, "build", &format!("drawing rejected by the scanner: {}", stable_msg(e)), &text, e, &expected_outcome);
+        continue;
+      }
+    }
+    // the plane left behind by recognize
+    match (&obs.post, ans[3].as_list()) {
+      (Some(p), Some(l)) if l.len() == 3 => {
+        if p.display != str_of(&l[1]) || p.texts.to_string() != l[2].to_string() {
+          rep.disagree(Kind::ImplVsModel, "plane", &format!("plane after recognize differs from the model ({})", t.orient), &text, &p.display, &str_of(&l[1]));
+        }
+      }
+      (None, Some(l)) if l.len() == 2 => {}
+      _ => {
+        rep.disagree(Kind::ImplVsModel, "plane", &format!("recognize succeeds/fails unlike the model ({})", t.orient), &text, &format!("{}", obs.post.is_some()), &ans[3].to_string().chars().take(60).collect::<String>());
+      }
+    }
+    // (b) the built table
+    let got = impl_outcome(&obs);
+    if got != expected_outcome {
+      let first_expr_marker = t.orient == "cols" && MARKERS.contains(&t.inputs[0].0.trim());
+      let lane = if t.outputs.len() == 1 || t.label.is_some() { t.label.clone().unwrap_or_default() } else { t.outputs[0].0.clone().unwrap_or_default() };
+      let lane_numeric = t.orient == "cols" && lane.trim().parse::<usize>().is_ok();
+      let predicted = got == model_recognized;
+      let sig = match &obs.built {
+        Err(_) if predicted && first_expr_marker => "rules-as-columns table whose first input expression is a hit policy marker is rejected".to_string(),
+        Err(_) if predicted && lane_numeric => "rules-as-columns table whose first output lane reads as a number is rejected".to_string(),
+        Err(m) => format!("drawing of a well-formed table rejected: {} ({})", err_name(m), t.orient),
+        Ok(dt) => {
+          let g = table_sexp(dt);
+          let gl = g.as_list().unwrap();
+          let el = parts[0].as_list().unwrap();
+          let names = ["", "orientation", "hit policy", "information item name", "input clauses", "output clauses", "output label", "annotations", "rules"];
+          let mut which = "table".to_string();
+          for i in 1..9 {
+            if gl[i] != el[i] {
+              which = names[i].to_string();
+              break;
+            }
+          }
+          format!("recognised {} differ from the drawn ones ({})", which, t.orient)
+        }
+      };
+      rep.disagree(Kind::ImplVsSpec, "build", &sig, &text, &got, &expected_outcome);
+    }
+    if let Ok(dt) = &obs.built {
+      let agg_ok = match dt.hit_policy {
+        HitPolicy::Collect(a) => dt.aggregation == Some(a),
+        _ => dt.aggregation.is_none(),
+      };
+      if !agg_ok {
+        rep.disagree(Kind::ImplVsSpec, "build", "aggregation field inconsistent with the hit policy", &text, &format!("{:?}", dt.aggregation), hp_atom(&dt.hit_policy));
+      }
+    }
+    if got != model_recognized {
+      rep.disagree(Kind::ImplVsModel, "build", "build differs from recognizePlane (planeOf t)", &text, &got, &model_recognized);
+    }
+    if model_recognized != expected_outcome {
+      rep.hit("model-roundtrip-fails");
+    }
+    if rep.samples.len() < 4 && ci % 97 == 0 {
+      rep.sample(json!({"drawing": text, "recognised": got.chars().take(300).collect::<String>(), "plane": model_plane}));
+    }
+    // (c) evaluation against the XML table
+    if t.semantic {
+      if let Ok(dt) = &obs.built {
+        evaluate_family(&mut rep, &mut rng, t, dt, &text);
+      }
+    }
+    if ci % 3 == 0 || thorough {
+      drawings.push((ci, text));
+    }
+  }
+
+  // ---- (d) corruptions and arbitrary text --------------------------------------------------------
+  let per_drawing = if thorough { 12 } else { 6 };
+  let mut texts: Vec<(String, String)> = vec![];
+  for (_, text) in &drawings {
+    for i in 0..per_drawing {
+      let (mut what, mut c) = corrupt(&mut rng, text);
+      if i % 4 == 3 {
+        let (w2, c2) = corrupt(&mut rng, &c);
+        what = format!("{}+{}", what, w2);
+        c = c2;
+      }
+      if &c != text {
+        texts.push((what, c));
+      }
+    }
+  }
+  // the corpus: the repository's own gallery and the witnesses of the findings
+  let mut corpus: Vec<(String, String, String)> = vec![];
+  if let Ok(rd) = std::fs::read_dir("corpus/C19") {
+    let mut files: Vec<_> = rd.filter_map(|e| e.ok()).map(|e| e.path()).filter(|p| p.extension().map(|x| x == "dtb").unwrap_or(false)).collect();
+    files.sort();
+    for f in files {
+      if let Ok(content) = std::fs::read_to_string(&f) {
+        let mut expect = String::new();
+        let mut body = String::new();
+        for l in content.lines() {
+          if let Some(rest) = l.strip_prefix("% expect:") {
+            expect = rest.trim().to_string();
+          } else if !l.starts_with('%') {
+            body.push_str(l);
+            body.push('\n');
+          }
+        }
+        corpus.push((f.file_name().unwrap().to_string_lossy().to_string(), expect, body));
+      }
+    }
+  }
+  rep.extra.insert("corpus_drawings".into(), json!(corpus.len()));
+  for (name, expect, body) in &corpus {
+    rep.case(body, true);
+    rep.hit("corpus");
+    {
+      let obs = run_impl(body);
+      if let Some((site, msg)) = &obs.panic {
+        rep.disagree(Kind::ImplVsSpec, "total", &format!("panic {} {}", site, stable_msg(msg)), body, &format!("panic: {}", msg), "Ok or Err");
+      }
+      {
+        let got = impl_outcome(&obs);
+        let ok = match expect.as_str() {
+          "ok" => obs.built.is_ok(),
+          "error" => obs.built.is_err(),
+          e => got == e,
+        };
+        if !ok {
+          rep.disagree(Kind::ImplVsSpec, "corpus", &format!("corpus drawing {}: outcome differs from the recorded one", name), body, &got.chars().take(200).collect::<String>(), expect);
+        }
+        if let Ok((p, nm)) = &obs.scanned {
+          let mut v = vec![Sexp::atom("plane"), opt_sexp(nm)];
+          v.extend(p.cells.as_list().unwrap().iter().cloned());
+          plane_reqs.push((format!("(c19 plane {})", Sexp::list(v)), body.clone(), got));
+        }
+      }
+    }
+    let n = if thorough { 400 } else { 150 };
+    for i in 0..n {
+      let (mut what, mut c) = corrupt(&mut rng, body);
+      if i % 4 == 3 {
+        let (w2, c2) = corrupt(&mut rng, &c);
+        what = format!("{}+{}", what, w2);
+        c = c2;
+      }
+      if &c != body {
+        texts.push((what, c));
+      }
+    }
+  }
+  if let Some(path) = &cfg.replay {
+    if let Ok(txt) = std::fs::read_to_string(path) {
+      if let Ok(j) = serde_json::from_str::<serde_json::Value>(&txt) {
+        if let Some(input) = j.get("input").and_then(|x| x.as_str()) {
+          texts.push(("replay".into(), input.to_string()));
+        }
+      }
+    }
+  }
+  for _ in 0..(if thorough { 20_000 } else { 3_000 }) {
+    texts.push(("arbitrary".into(), arbitrary_text(&mut rng)));
+  }
+  for t in degenerate_texts {
+    texts.push(("degenerate-geometry".into(), t));
+  }
+  for probe in ["", "\n", "┌", "┌┘", "┌╥┐\n╞╬╡\n└╨┘", "┌─╥─┐\n│ ║ │\n╞═╬═╡\n│ ║ │\n└─╨─┘", "┌╥\n╬", "╬", "┌\n╥\n╬\n╨"] {
+    texts.push(("probe".into(), probe.to_string()));
+  }
+  for (what, text) in &texts {
+    rep.case(text, what != "arbitrary" && what != "probe");
+    rep.hit(&format!("corruption:{}", what.split('+').next().unwrap_or("")));
+    {
+      let obs = run_impl(text);
+      if let Some((site, msg)) = &obs.panic {
+        rep.hit("outcome:panic");
+        rep.disagree(Kind::ImplVsSpec, "total", &format!("panic {} {}", site, stable_msg(msg)), text, &format!("panic: {}", msg), "Ok or Err");
+      }
+      {
+        let got = impl_outcome(&obs);
+        if obs.panic.is_none() {
+          rep.hit(if obs.built.is_ok() { "outcome:recognised" } else { "outcome:error" });
+        }
+        if let Ok((p, name)) = &obs.scanned {
+          let mut v = vec![Sexp::atom("plane"), opt_sexp(name)];
+          v.extend(p.cells.as_list().unwrap().iter().cloned());
+          plane_reqs.push((format!("(c19 plane {})", Sexp::list(v)), text.clone(), got));
+        } else if let Err(m) = &obs.built {
+          rep.hit(&format!("error:{}", err_name(m).chars().take(40).collect::<String>()));
+        }
+      }
+    }
+  }
+  // the plane logic on the planes of corrupted drawings: implementation vs model
+  let preqs: Vec<String> = plane_reqs.iter().map(|x| x.0.clone()).collect();
+  let pans = model.ask_batch(&preqs);
+  for ((_req, text, got), ans) in plane_reqs.iter().zip(pans.iter()) {
+    let parsed = Sexp::parse(ans);
+    let m = parsed.as_ref().and_then(|s| s.as_list().map(|l| l.get(1).map(|x| x.to_string()).unwrap_or_default())).unwrap_or_else(|| ans.clone());
+    let m = normalise_model_outcome(&m);
+    let shape = parsed.as_ref().and_then(|s| s.as_list().and_then(|l| l.get(2).map(|x| x.to_string()))).unwrap_or_default();
+    rep.hit(&format!("scanned-plane:{}", shape));
+    if shape != "(scanner-shape true)" {
+      rep.hit(&format!("shape-failure:{}", shape.trim_start_matches("(scanner-shape false").trim_end_matches(')').trim()));
+      // the hypothesis of plane_no_panic_partial does not hold for this plane the scanner produced
+      rep.hit("scanner-shape-violated");
+      if !got.starts_with("(panic") {
+        rep.hit("scanner-shape-violated-without-panic");
+      }
+      if got.starts_with("(panic") && !shape.contains("ragged") {
+        rep.disagree(Kind::ImplVsSpec, "total", "panic on a rectangular scanned plane (not explained by finding F19e)", text, got, &shape);
+      }
+    } else if got.starts_with("(panic") {
+      rep.disagree(Kind::ImplVsModel, "plane-logic", "panic on a plane of the scanner shape (contradicts plane_no_panic_partial)", text, got, &m);
+    }
+    rep.hit(&format!("plane-outcome:{}", m.chars().take(28).collect::<String>().split(' ').take(2).collect::<Vec<_>>().join(" ")));
+    if &m != got {
+      let short = |s: &str| s.chars().take(40).collect::<String>();
+      rep.disagree(
+        Kind::ImplVsModel,
+        "plane-logic",
+        &format!("outcome on a scanned plane differs: impl {} / model {}", short(got).split(' ').take(2).collect::<Vec<_>>().join(" "), short(&m).split(' ').take(2).collect::<Vec<_>>().join(" ")),
+        text,
+        got,
+        &m,
+      );
+    }
+  }
+  rep.model_requests = model.requests;
+  rep.notes.push("partial: the scanner (recognizer/src/canvas.rs) is not modelled; it is tied to planeOf / draw by the 'plane' family (scanned plane = planeOf t, region numbers and texts) and to the hypothesis of plane_no_panic_partial by the 'scanned-plane:(scanner-shape …)' buckets".into());
+  rep.extra.insert("drawings".into(), json!(cases.len()));
+  rep.extra.insert("corrupted_or_arbitrary_texts".into(), json!(texts.len()));
+  rep.extra.insert("scanned_planes_checked_against_model".into(), json!(plane_reqs.len()));
+  rep
+}
+
+fn evaluate_family(rep: &mut Report, rng: &mut Rng, t: &Tbl, dt: &DecisionTable, text: &str) {
+  let xml = table_xml(t);
+  let me = match guarded(|| dmntk_model::parse(&xml).and_then(|d| ModelEvaluator::new(&d))) {
+    Ok(Ok(me)) => me,
+    Ok(Err(e)) => {
+      rep.hit("xml-table-does-not-build");
+      // the XML table does not build: the drawn one must not evaluate either
+      let ctx = input_context(rng, t);
+      let r = guarded(|| {
+        let c = dmntk_feel_evaluator::evaluate_context(&Scope::default(), &ctx).ok()?;
+        let scope: Scope = c.into();
+        dmntk_model_evaluator::build_decision_table_evaluator(&scope, dt).ok().map(|_| ())
+      });
+      if let Ok(Some(())) = r {
+        rep.disagree(Kind::ImplVsSpec, "evaluate", "drawn table builds an evaluator but the XML table does not", text, "evaluator built", &e.to_string());
+      }
+      return;
+    }
+    Err(_) => {
+      rep.hit("xml-table-panics");
+      return;
+    }
+  };
+  for _ in 0..3 {
+    let ctx_text = input_context(rng, t);
+    let r = guarded(|| {
+      let ctx: FeelContext = dmntk_feel_evaluator::evaluate_context(&Scope::default(), &ctx_text).map_err(|e| e.to_string())?;
+      let from_xml = canon(&me.evaluate_invocable("D", &ctx));
+      let scope: Scope = ctx.into();
+      let from_drawing = match dmntk_model_evaluator::build_decision_table_evaluator(&scope, dt) {
+        Ok(ev) => canon(&ev(&scope)),
+        Err(e) => format!("build error: {}", stable_msg(&e.to_string())),
+      };
+      Ok::<(String, String), String>((from_xml, from_drawing))
+    });
+    match r {
+      Ok(Ok((x, d))) => {
+        rep.evaluations += 1;
+        rep.hit(if x == "null" { "evaluate:null" } else { "evaluate:value" });
+        if x != d {
+          let wrapped = t.inputs.iter().any(|(e, _)| e.contains('\n'));
+          let sig = if t.blank_values != 0 {
+            format!("table drawn with blank allowed {} values does not evaluate like the table without them", if t.blank_values == 1 { "output" } else { "input" })
+          } else if d.starts_with("build error") {
+            format!("recognised table does not build an evaluator{}", if wrapped { " (input expression wrapped over lines)" } else { "" })
+          } else if wrapped {
+            "recognised table evaluates differently from the XML table (input expression wrapped over lines)".to_string()
+          } else {
+            "recognised table evaluates differently from the XML table".to_string()
+          };
+          rep.disagree(Kind::ImplVsSpec, "evaluate", &sig, &format!("{}\n% {}", text, ctx_text), &d, &x);
+        }
+      }
+      Ok(Err(_)) => rep.hit("evaluate:context-error"),
+      Err(m) => {
+        rep.disagree(Kind::ImplVsSpec, "evaluate", &format!("panic {} {}", last_panic(), stable_msg(&m)), &format!("{}\n% {}", text, ctx_text), "panic", "a value");
+      }
+    }
+  }
 }
